@@ -21,27 +21,34 @@ def run(tier, seed, mutant=None, only_validate=False):
             for aw, bf in ((True, False), (True, True)):
                 for sync in (False, True):
                     r, rec = amod.mc(res, work, "DaskFlow", "await%d_buffered%d_sync%d" % (aw, bf, sync),
-                                     dict(NE=ne, Await=aw, Buffered=bf, SyncCons=sync, Turn=True), INVS, ["AllDelivered"], spec="FairSpec",
+                                     dict(NE=ne, Await=aw, Buffered=bf, SyncCons=sync, Turn=True, Faults=not bf, EarlyTurn=False), INVS, ["AllDelivered"], spec="FairSpec",
                                      coverage=False)
                     amod.spec_violation(res, r, rec, {}, "C20", "dask")
             # a producer that does not await its emits: everything but the order holds; the loss of order is exhibited
             for bf in (False, True):
-                r, rec = amod.mc(res, work, "DaskFlow", "fire_and_forget_buffered%d" % bf, dict(NE=ne, Await=False, Buffered=bf, SyncCons=False, Turn=True),
+                r, rec = amod.mc(res, work, "DaskFlow", "fire_and_forget_buffered%d" % bf, dict(NE=ne, Await=False, Buffered=bf, SyncCons=False, Turn=True, Faults=not bf, EarlyTurn=False),
                                  [i for i in INVS if i != "SameOrder"], ["AllDelivered"], spec="FairSpec", coverage=False)
                 amod.spec_violation(res, r, rec, {}, "C20", "dask")
-            r, rec = amod.mc(res, work, "DaskFlow", "fire_and_forget_order", dict(NE=3, Await=False, Buffered=False, SyncCons=False, Turn=True),
+            r, rec = amod.mc(res, work, "DaskFlow", "fire_and_forget_order", dict(NE=3, Await=False, Buffered=False, SyncCons=False, Turn=True, Faults=False, EarlyTurn=False),
                              ["SameOrder"], coverage=False)
             rec["expected_violation"] = "SameOrder"
             rec["ok"] = r.violated == "SameOrder"
             if r.violated != "SameOrder":
                 raise core.MachineryError("expected counter-example to SameOrder (unordered concurrent scatter calls) not found")
             # sensitivity: gather as in the pinned tree (no turns, finding F22) loses the call order
-            r, rec = amod.mc(res, work, "DaskFlow", "legacy_no_turn", dict(NE=3, Await=False, Buffered=False, SyncCons=False, Turn=False),
+            r, rec = amod.mc(res, work, "DaskFlow", "legacy_no_turn", dict(NE=3, Await=False, Buffered=False, SyncCons=False, Turn=False, Faults=False, EarlyTurn=False),
                              ["CallOrder"], coverage=False)
             rec["expected_violation"] = "CallOrder"
             rec["ok"] = r.violated == "CallOrder"
             if r.violated != "CallOrder":
                 raise core.MachineryError("sensitivity: DaskFlow without gather turns must violate CallOrder")
+            # sensitivity: a failed call that passes its turn on at once lets a later result overtake an earlier one
+            r, rec = amod.mc(res, work, "DaskFlow", "early_turn_on_failure",
+                             dict(NE=3, Await=False, Buffered=False, SyncCons=False, Turn=True, Faults=True, EarlyTurn=True), ["CallOrder"], coverage=False)
+            rec["expected_violation"] = "CallOrder"
+            rec["ok"] = r.violated == "CallOrder"
+            if r.violated != "CallOrder":
+                raise core.MachineryError("sensitivity: passing the turn early on failure must violate CallOrder")
         out = os.path.join(work, "runs")
         args = ["--tier", tier, "--seed", seed, "--out", out]
         if mutant:
@@ -54,9 +61,10 @@ def run(tier, seed, mutant=None, only_validate=False):
         groups = {}
         for r in runs:
             c = r["cfg"]
-            key = (c["n"], c["await"], c["shape"] in ("map_buffer",), c["cons"] == "sync")
+            key = (c["n"], c["await"], c["shape"] in ("map_buffer",), c["cons"] == "sync", bool(c.get("fail")))
             groups.setdefault(key, []).append({"id": r["id"], "ev": r["ev"]})
-        glist = [("dask n=%s await=%s buffered=%s sync=%s" % k, dict(NE=k[0], Await=k[1], Buffered=k[2], SyncCons=k[3], Turn=True), ts)
+        glist = [("dask n=%s await=%s buffered=%s sync=%s faults=%s" % k,
+                  dict(NE=k[0], Await=k[1], Buffered=k[2], SyncCons=k[3], Turn=True, Faults=k[4], EarlyTurn=False), ts)
                  for k, ts in groups.items()]
         reached, problems = amod.validate_groups(work, "DaskFlowTrace", glist, timeout=1800)
         unsafe = getattr(amod.validate_groups, "unsafe", {})
